@@ -141,9 +141,6 @@ def observe_(case, rep):
 
     b = ec.Built(text)
     if b.error:
-        if b.executed_at_parse() and ec.has_failing_constant(prog):     # C01's known finding constant-subexpression-executed; no symbols, no graph
-            rep.dist['skipped:constant-subexpression-executed-at-parse'] += 1
-            return None
         violate('rejected', f'program of the grammar rejected with {b.error}: {b.error_msg}')
         return None
     try:
